@@ -113,7 +113,6 @@ pub open spec fn u_wf(v: UView) -> bool {
 // ---------------------------------------------------------------------------------------
 // -t- extension body:  [tlang] tfield*   (tlang = a language identifier, tfield = tkey tvalue*)
 // ---------------------------------------------------------------------------------------
-pub open spec fn lang_shaped(s: Seq<u8>) -> bool { all_alpha(s) && 2 <= s.len() && s.len() <= 8 }
 
 pub open spec fn t_has_lang(t: Seq<Seq<u8>>) -> bool { 0 < t.len() && lang_shaped(t[0]) }
 /// first subtag after the tlang (or 0 when there is none)
